@@ -18,7 +18,7 @@ CHECKS = {
         "plotfiles (2D/3D, 1..4 levels, two origins x three cell shapes x five times fully crossed, repeated field names, "
         "refinement-ratio line of length L..L+2, scattered layouts with file numbers starting at 1) is executed and every public "
         "attribute named by the property is compared with the descriptor; header-only opens run on a directory that has no level data.",
-   note="Floats must be bit-equal to float(text); grids to 1e-12 relative. Micro-scale geometry is outside the alphabet.",
+   note="Floats must be bit-equal to float(text); grids to 1e-12 relative.",
    tech="bounded-exhaustive exploration of the implementation against a reference model"),
  "C03": dict(cat="model_checking", design="4/C03",
    text="Taster is run with all 16 option combinations x every level limit x {fail, nofail} on the C01 plotfile universe "
@@ -167,6 +167,30 @@ CHECKS = {
 NOT_YET = {}
 
 
+# what was added to each check while building (DESIGN.md 8.2 / 8.5); appended to the level note
+ADDED = {
+ "C01": "Added since: extreme geometries, thin / single-cell boxes, six-digit indices in two directions, a 7-level 12-field plotfile (FAB header lines > 100 bytes), every permutation of <= 4 boxes as a selector, histories on one stream / selector object, schedules of multi-box selections.",
+ "C02": "Added since: extreme geometries ARE in the alphabet now, thin meshes, six-digit indices, every opening of one plotfile must expose the same keys.",
+ "C03": "Added since: fresh process per chunk with alternating limit order (process-lifetime state), huge payload, schedules of the full validation, default and chatty verbosity, the command line with every flag combination, the 7-level 12-field plotfile.",
+ "C04": "Added since: in-place histories at one path, extreme geometries for the coordinate validation, offset-of-another-FAB operator, the taste command line, a 7-level 12-field base (single corruptions).",
+ "C05": "Added since: command line vs API for an option table, histories on one Colander object, 12-field plotfiles with huge values (24-character min/max tokens), sibling names, six-digit indices, the 7-level plotfile.",
+ "C06": "Added since: str / list selection forms, one reader object used by three combines, the command line, extreme geometries (mesh comparison), far-index mismatch, a 7-level 12+12-field pair.",
+ "C07": "Added since: extreme geometries, hostile constant field, histories on one Mandoline object over all normals, schedules at neighbour-box positions, command line (default verbosity), +-1 ulp / +-1e-9 cell beside every lattice position, a 7-level 12-field plotfile (closed-form oracle), Pool(0) refused by the pool model.",
+ "C08": "Added since: extreme geometries, fine boxes aligned to one coarse cell, thin meshes, command line vs API.",
+ "C09": "Added since: sibling volFrac names, non-finite values in covered cells, histories on one reader, command line vs API, the 7-level 12-field plotfile.",
+ "C10": "Added since: all-zero fine boxes, two boxes of one file out of header order, field names differing by case, the 7-level 12-field plotfile gridded at 1024 x 128 x 128.",
+ "C11": "Added since: recipes without docstring and passed as a callable, two recipe files with one base name, two cooks on one Chef object, command line vs API, file numbers with gaps, the 7-level 12-field plotfile.",
+ "C12": "Added since: pool size explored over 1 / 2 / 3 / 5 / 16, asynchronous pool calls, chdir histories and the two-cook Cantera history under the real pools, a plane that the finest level does not meet.",
+ "C13": "Added since: path shapes ./x, trailing slash, absolute; output = the existing directory holding the inputs; the same output written twice with other options; directory names with dots; audit resolves dir_fd-relative paths.",
+ "C14": "Added since: one reader object per state shared by all its combines, a chef event keeping two fields out of header order, a field with huge values.",
+ "C15": "Added since: histories on one stream object, class-B field lists (run ends around a permuted / repeated interior), the 7-level 12-field plotfile.",
+ "C16": "Added since: extreme geometries, schedules of the per-level pool call, histories on one Mandoline object, command line vs API (default verbosity), the 7-level 12-field plotfile (closed-form oracle).",
+ "C17": "Added since: extreme geometries, species names with nested parentheses, the command line over all option combinations, a 7-level checkpoint with ten state components.",
+ "C18": "Added since: huge values, nested parentheses, marinate after an in-place rewrite, directory names with dots and a marinated sibling, NaN in the tables of level 0 only vs of finer levels only.",
+ "C19": "Added since: extreme geometries, selectors re-used across queries, adjacent fields in descending order, the 7-level 12-field plotfile.",
+ "C20": "Added since: three field-selector forms, multi-box selectors (rotation, reversed slice, mask), one stream object re-used, the 7-level 12-field base.",
+}
+
 def main():
     props = [json.loads(l) for l in open(os.path.join(HERE, "properties.jsonl"))]
     checks = []
@@ -179,7 +203,7 @@ def main():
             "replay_cmd_template": "bin/check %s --replay {path}" % pid,
             "engine": "kv",
             "level_claimed": {"category": c["cat"], "text": c["text"], "design_ref": c["design"]},
-            "level_note": c["note"],
+            "level_note": c["note"] + (" " + ADDED[pid] if pid in ADDED else ""),
             "technique": c["tech"],
         })
     na = []
